@@ -18,7 +18,8 @@ const KIND_DATA_HISTORY: u8 = 3;
 pub(crate) enum Item {
 	Data(Arc<Block>),
 	Index(Arc<Block>),
-	VLog(Value),
+	/// A value-log value and the checksum of the pointer it was read for.
+	VLog(Value, u32),
 }
 
 /// Cache key with kind-based differentiation.
@@ -56,7 +57,7 @@ impl Weighter<CacheKey, Item> for BlockWeighter {
 		match item {
 			Item::Data(block) => block.size() as u64,
 			Item::Index(block) => block.size() as u64,
-			Item::VLog(value) => value.len() as u64,
+			Item::VLog(value, _) => value.len() as u64,
 		}
 	}
 }
@@ -126,9 +127,9 @@ impl BlockCache {
 		self.data.insert((KIND_INDEX, table_id, offset).into(), Item::Index(block));
 	}
 
-	/// Inserts a VLog value into the cache.
-	pub(crate) fn insert_vlog(&self, file_id: u32, offset: u64, value: Value) {
-		self.data.insert((KIND_VLOG, file_id as u64, offset).into(), Item::VLog(value));
+	/// Inserts a VLog value into the cache, with the checksum of the pointer it was read for.
+	pub(crate) fn insert_vlog(&self, file_id: u32, offset: u64, value: Value, checksum: u32) {
+		self.data.insert((KIND_VLOG, file_id as u64, offset).into(), Item::VLog(value, checksum));
 	}
 
 	/// Retrieves a data block from the cache.
@@ -192,7 +193,13 @@ impl BlockCache {
 	}
 
 	/// Retrieves a VLog value from the cache.
+	#[cfg_attr(not(test), allow(dead_code))]
 	pub(crate) fn get_vlog(&self, file_id: u32, offset: u64) -> Option<Value> {
+		self.get_vlog_entry(file_id, offset).map(|(value, _)| value)
+	}
+
+	/// Retrieves a VLog value and the checksum it was inserted with from the cache.
+	pub(crate) fn get_vlog_entry(&self, file_id: u32, offset: u64) -> Option<(Value, u32)> {
 		let key = (KIND_VLOG, file_id as u64, &offset);
 		let item = self.data.get(&key);
 
@@ -206,7 +213,7 @@ impl BlockCache {
 		}
 
 		match item.as_ref()? {
-			Item::VLog(value) => Some(value.clone()),
+			Item::VLog(value, checksum) => Some((value.clone(), *checksum)),
 			_ => None,
 		}
 	}
